@@ -94,44 +94,45 @@ type frame struct {
 
 // Exec is the per-path interpreter state.
 type Exec struct {
-	P          *Program
-	Opt        *Options
-	S          *Solver
-	prefix     []Dec
-	pos        int
-	trace      []Dec
-	pc         []*Term
-	inputs     []Input
-	obs        []Observation
-	objSeq     int
-	fresh      int
-	instr      int64
-	res        *PathResult
-	forks      [][]Dec // sibling prefixes discovered on this path
-	ndMemo     map[*Term]int64
-	refLo      map[*Term]*big.Int
-	refHi      map[*Term]*big.Int
-	depth      int
-	skip       map[string]int
-	model      map[string]*big.Int // a model of the current pc (nil if unknown)
-	pcVars     []*Term
-	pcVarSet   map[*Term]bool
-	pending    []pendingAssert
-	flushing   bool
-	pcSet      map[*Term]bool
-	fixed      map[*Term]*big.Int
-	prodMemo   map[*Term]*Term
-	divMemo    map[[2]*Term][2]IntV
-	mulMemo    map[[2]*Term][2]*Term
-	ufMemo     map[string]bigRef
-	ufSeq      int
-	snaps      []bigSnap
-	noFallback bool
-	defs       []*Term // defining equations of abstracted products
-	initMode   bool
-	created    []*Object
-	concrete   bool // init mode: no solver, everything must fold
-	stack      []string
+	P           *Program
+	Opt         *Options
+	S           *Solver
+	prefix      []Dec
+	pos         int
+	trace       []Dec
+	pc          []*Term
+	inputs      []Input
+	obs         []Observation
+	objSeq      int
+	fresh       int
+	instr       int64
+	res         *PathResult
+	forks       [][]Dec // sibling prefixes discovered on this path
+	ndMemo      map[*Term]int64
+	refLo       map[*Term]*big.Int
+	refHi       map[*Term]*big.Int
+	depth       int
+	skip        map[string]int
+	model       map[string]*big.Int // a model of the current pc (nil if unknown)
+	pcVars      []*Term
+	pcVarSet    map[*Term]bool
+	pending     []pendingAssert
+	flushing    bool
+	pcSet       map[*Term]bool
+	fixed       map[*Term]*big.Int
+	prodMemo    map[*Term]*Term
+	divMemo     map[[2]*Term][2]IntV
+	mulMemo     map[[2]*Term][2]*Term
+	ufMemo      map[string]bigRef
+	ufSeq       int
+	snaps       []bigSnap
+	noFallback  bool
+	unknownKept int
+	defs        []*Term // defining equations of abstracted products
+	initMode    bool
+	created     []*Object
+	concrete    bool // init mode: no solver, everything must fold
+	stack       []string
 }
 
 func (ex *Exec) stop(reason, msg string) {
@@ -179,6 +180,10 @@ func (ex *Exec) freshVar(prefix string, s Sort) *Term {
 func (ex *Exec) assumeT(t *Term) {
 	if t.IsTrue() {
 		return
+	}
+	if t.TreeSize() > 3_000_000 {
+		// a term whose printed form explodes (shared sub-terms repeated along a loop): no verdict
+		ex.stop("unwind", "term size explosion in the path condition")
 	}
 	ex.pc = append(ex.pc, t)
 	if ex.pcSet == nil {
@@ -357,6 +362,12 @@ func (ex *Exec) decideV(c *Term, v *big.Int, trueKnownSat bool) bool {
 	}
 	if rt == Unknown || rf == Unknown {
 		ex.res.MaybeInfeas = true
+		ex.unknownKept++
+		if ex.unknownKept > 12 {
+			// (typically a loop whose exit the solver cannot decide: without this bound such a
+			// path is unrolled to the decision bound in every direction)
+			ex.stop("unwind", "more than 12 branch-feasibility queries undecided on one path")
+		}
 	}
 	ex.model = mt
 	ForkSite(ex.where())
@@ -1196,7 +1207,11 @@ func (ex *Exec) concretize(v IntV, what string) *big.Int {
 			}
 			cand = m[t.SMT()]
 			if cand == nil {
-				ex.stop("error", "no model value at concretize("+what+")")
+				raw := ex.S.LastRaw
+				if len(raw) > 300 {
+					raw = raw[:300]
+				}
+				ex.stop("error", fmt.Sprintf("no model value at concretize(%s) for %s; solver answered %q", what, t.SMT(), raw))
 			}
 			known = true
 		}
